@@ -83,6 +83,11 @@ CHECKS = {
             "Every single-byte corruption and every truncation of every data and index file of the victim table is applied to a copy of a closed database; the database is reopened and the query sequences are run; each query must fail or return exactly the original rows, repeated reads included, and the other table must stay readable.",
             "Bounded: one victim table (3 columns, ~40 rows, several blocks), one bit per byte in the quick tier (all 8 in thorough), corruption while closed; CRC32 as configured by default_for_cli.",
             "DESIGN.md §3 E3, §4 C18"),
+    "C11": ("E1-small-scope", "exploration",
+            "exhaustive small-scope enumeration of operator inputs x operator parameters on hand-built physical plans, differential oracle between the physical implementations",
+            "For every pair of input contents of the stated domain, every join type, key-list width and residual option, the nested-loop, hash and merge join plans are built programmatically and run by the real executor; likewise hash/sort/simple aggregation and limit(order) vs top-N; all implementations must return the same multiset.",
+            "Bounded: inputs = all multisets of <= 2 (quick) / 3 (thorough) rows over a 6-row universe with NULL and duplicate keys, plus 1030/2050-row inputs crossing the 1024-row chunk; INT keys only (mixed widths are covered end-to-end by C01/C02); order-dependent aggregates (first/last) excluded.",
+            "DESIGN.md §4 C11"),
     "C12": ("E2-history-explorer", "model_checking",
             "bounded exhaustive history exploration on the real engine (all op sequences up to depth d x all ORDER BY/LIMIT/OFFSET queries), relational oracle",
             "Every population history up to the depth bound, on every engine/layout of the configuration list, is executed on the real engine and every ORDER BY/LIMIT/OFFSET query of the small query space is judged by the relations the property states (permutation, sortedness, slice, count, membership). Complete within the stated bounds; nothing is sampled.",
